@@ -9,6 +9,7 @@ structure St where
   w : World := {}
   -- program under construction
   ng : Nat := 0
+  nplain : Nat := 0      -- how many of the trailing model globals the program text leaves undeclared (plain variables)
   funs : List Fun := []
   begin_ : Option Block := none
   end_ : Option Block := none
@@ -143,7 +144,8 @@ def step (s : St) (line : String) : St × String :=
   | [] => (s, "-")
   | ["new"] => ({}, "new ok")
   | ["fin"] => ({}, "end live=0 xfree=0 badfree=0")
-  | ["prog", ng] => ({ s with ng := ng.toNat?.getD 0, funs := [], begin_ := none, end_ := none, sites := [], target := 0 }, "-")
+  | ["prog", ng] => ({ s with ng := ng.toNat?.getD 0, nplain := 0, funs := [], begin_ := none, end_ := none, sites := [], target := 0 }, "-")
+  | ["prog", ng, np] => ({ s with ng := ng.toNat?.getD 0, nplain := np.toNat?.getD 0, funs := [], begin_ := none, end_ := none, sites := [], target := 0 }, "-")
   | ["fun", name, spec, nl] =>
     let sp := if spec == "-" then [] else spec.toList.map (· == 'r')
     ({ s with funs := s.funs ++ [{ name := name, spec := sp, nlcls := nl.toNat?.getD 0, body := [] }], target := 0 }, "-")
@@ -159,7 +161,7 @@ def step (s : St) (line : String) : St × String :=
   | "parse" :: _ :: _ =>
     if anyOpen s.w then (s, "parse refused") else
     let sites := s.sites
-    let p : Prog := { ng := s.ng, hidden := 2, funs := s.funs, begin_ := s.begin_, end_ := s.end_,
+    let p : Prog := { ng := s.ng, hidden := 2 - s.nplain, funs := s.funs, begin_ := s.begin_, end_ := s.end_,
                       siteName := fun n => match sites.find? (·.1 == n) with | some q => q.2 | none => "" }
     ({ s with w := { s.w with interp := s.w.interp.parse p } }, "parse ok" ++ progInfo p)
   | "parsebad" :: _ :: _ =>
